@@ -127,19 +127,57 @@ def expected_desc(desc, writer):
     return S.nv_transform(desc) if writer in NV_WRITERS else desc
 
 
+def focus(e, o):
+    """innermost pair of subterms at which expected and observed differ"""
+    while (isinstance(e, tuple) and isinstance(o, tuple) and len(e) == len(o) and e[0] == o[0]):
+        bad = [(a, b) for a, b in zip(e[1:], o[1:]) if not S.TX.same_modulo_vars(a, b)]
+        if len(bad) != 1:
+            break
+        e, o = bad[0]
+    return e, o
+
+
+def routes_of(d):
+    out = set()
+
+    def go(x):
+        k = x[0]
+        if k in ("k", "s", "r"):
+            out.add({"k": "copy", "s": "pstr", "r": "rat"}[k])
+        if k == "c":
+            for y in x[2]:
+                go(y)
+        elif k == "l":
+            for y in x[1]:
+                go(y)
+            go(x[2])
+        elif k == "s":
+            go(x[2])
+        elif k == "k":
+            go(x[1])
+    go(d)
+    return ",".join(sorted(out)) or "-"
+
+
 def judge(desc, writer, text, werr, rb, ot):
-    """-> (label, violation kind or None, observed)"""
+    """-> (label, violation kind or None, observed); the violation kind names
+    the kind of disagreement and the shapes of the smallest differing subterms"""
     if werr is not None:
-        return ("writer_error", "writer_error:" + werr, "writer raised " + werr)
+        return ("writer_error", "writer_error:%s exp=%s" % (werr, S.shape_desc(desc, ot)), "writer raised " + werr)
     if rb == "ok":
         q, br, sp, oo = features(text, desc, ot)
         lab = "ok" + ("+q" if q else "") + ("+b" if br else "") + ("+s" if sp else "")
         return (lab, None, text)
+    exp = S.to_abstract(expected_desc(desc, writer))
     if isinstance(rb, tuple) and rb[0] == "diff":
-        return ("misread", "misread->" + S.shape_term(rb[1], ot), "%s reads back as %s" % (text, terms.show(rb[1])))
+        e, o = focus(exp, rb[1])
+        return ("misread", "misread exp=%s obs=%s" % (S.shape_term(e, ot), S.shape_term(o, ot)),
+                "%s reads back as %s" % (text, terms.show(rb[1])))
     if isinstance(rb, tuple) and rb[0] == "err":
-        return ("unreadable", "unreadable:" + px.formal_sig(rb[1]), "%s raises %s" % (text, terms.show(rb[1])))
-    return ("unreadable", "unreadable:" + terms.show(rb)[:40], "%s -> %s" % (text, terms.show(rb)))
+        return ("unreadable", "unreadable:%s exp=%s" % (px.formal_sig(rb[1]), S.shape_term(exp, ot)),
+                "%s raises %s" % (text, terms.show(rb[1])))
+    return ("unreadable", "unreadable:%s exp=%s" % (terms.show(rb)[:40], S.shape_term(exp, ot)),
+            "%s -> %s" % (text, terms.show(rb)))
 
 
 def run_cases(w, descs, writers, ot):
@@ -182,7 +220,7 @@ def run_cases(w, descs, writers, ot):
 
 
 def sig_of(table, writer, desc, vk, ot):
-    return "%s %s %s %s" % (writer, "default" if table == "default" else table, vk, S.shape_desc(desc, ot))
+    return "%s %s %s routes=%s" % (writer, table, vk, routes_of(desc))
 
 
 def run_shard(w, shard, tier):
@@ -199,19 +237,19 @@ def run_shard(w, shard, tier):
                     case = {"family": name, "table": table, "desc": d, "writer": wname}
                     if abn:
                         acc.case(True, "abnormal")
-                        acc.violation(sig_of(table, wname, d, "abn:" + abn, ot), case,
+                        acc.violation(sig_of(table, wname, d, "abn:%s exp=%s" % (abn, S.shape_desc(d, ot)), ot), case,
                                       expected="text that reads back as a variant of " + S.show(d), observed=abn)
                         continue
                     label, vk, obs = judge(d, wname, text, werr, rb, ot)
                     nt = any(features(text, d, ot)) if text is not None else True
-                    acc.case(nt, label, sample={"term": S.show(d), "table": table, "writer": WRITER_TEXT[wname], "text": text})
+                    acc.case(nt, label, sample=None if len(acc.samples) >= 3 else
+                             {"term": S.show(d), "table": table, "writer": WRITER_TEXT[wname], "text": text})
                     if vk:
                         acc.violation(sig_of(table, wname, d, vk, ot), case,
                                       expected="text that reads back as a variant of " + S.show(expected_desc(d, wname)),
                                       observed=obs)
     finally:
         restore_table(w, table)
-    acc.extra["skipped_undefined:print/1"] = 0
     return acc.result()
 
 
@@ -224,7 +262,7 @@ def recheck(w, case, tier):
         restore_table(w, table)
     exp = "text that reads back as a variant of " + S.show(expected_desc(d, wname))
     if abn:
-        return {"sig": sig_of(table, wname, d, "abn:" + abn, ot), "case": case, "expected": exp, "observed": abn}
+        return {"sig": sig_of(table, wname, d, "abn:%s exp=%s" % (abn, S.shape_desc(d, ot)), ot), "case": case, "expected": exp, "observed": abn}
     label, vk, obs = judge(d, wname, text, werr, rb, ot)
     if vk:
         return {"sig": sig_of(table, wname, d, vk, ot), "case": case, "expected": exp, "observed": obs}
